@@ -1,5 +1,5 @@
 # usage: ttest.sh PROP K "tests"  -> runs tests on patched scratch worktree, prints tail
 PROP=$1; K=$2; TESTS=$3
-WT=/tmp/scratch/tt_${PROP}_$K
+WT=/tmp/scratch/tt_${PROP}_${K}_$$
 git -C /repo worktree add -q --detach $WT HEAD && git -C $WT apply ${SEEDDIR:-/tmp/seed}/$PROP.out/patch$K.diff && ( cd $WT && PYTHONPATH=$WT timeout 3000 /venv/bin/python -m pytest -q -p no:cacheprovider --timeout=900 $TESTS 2>&1 | tail -2 )
 git -C /repo worktree remove --force $WT
